@@ -32,6 +32,8 @@ type Scenario struct {
 	// AfterTx: extra per-transaction oracle
 	AfterTx     func(e *Exec, obs *TxObs, pre, post map[string][]mc.KV) []Disc
 	PostProcess func(e *Exec, discs []Disc) []Disc
+	// VisitAfterPrefix: Visit is first run on the state the prefix ends in (not after each of its blocks)
+	VisitAfterPrefix bool
 	// VisitPure: Visit only reads (no observations kept in the model state), so executions that run
 	// without oracles (conformance replays) may skip it
 	VisitPure bool
@@ -280,6 +282,7 @@ func (s *Scenario) Explore(opt Options) (Stats, []Violation) {
 		}
 		return out
 	}
+	root.SkipVisitSteps = s.skipVisit()
 	for _, pn := range s.Prefix {
 		a := s.action(pn)
 		idx := 0
@@ -364,6 +367,7 @@ func (s *Scenario) Explore(opt Options) (Stats, []Violation) {
 					if opt.FreshJobs {
 						e = s.NewExec()
 						e.W.SetBase(base)
+						e.SkipVisitSteps = s.skipVisit()
 						for _, ai := range p.path {
 							e.Run(&s.Actions[ai], false)
 						}
@@ -566,8 +570,16 @@ func cloneAux(a map[string]int) map[string]int {
 }
 
 // ReplayPath replays a path of action indices on a fresh application without restore.
+func (s *Scenario) skipVisit() int {
+	if s.VisitAfterPrefix && len(s.Prefix) > 0 {
+		return len(s.Prefix) - 1
+	}
+	return 0
+}
+
 func (s *Scenario) ReplayPath(path []int, oracle bool) (*Exec, []StepObs) {
 	e := s.NewExec()
+	e.SkipVisitSteps = s.skipVisit()
 	if !oracle && s.VisitPure {
 		e.Visit = nil
 	}
@@ -585,6 +597,7 @@ func (s *Scenario) ReplayPath(path []int, oracle bool) (*Exec, []StepObs) {
 // ReplayNames replays a path given by action names and returns all discrepancies per step.
 func (s *Scenario) ReplayNames(path []string) ([]StepObs, [][]Disc) {
 	e := s.NewExec()
+	e.SkipVisitSteps = s.skipVisit()
 	var obsv []StepObs
 	var ds [][]Disc
 	for _, n := range path {
